@@ -518,6 +518,7 @@ class Engine:
             and self.current_epoch.config.type == EpochType.POSTERIOR
         ):
             self._end_warmup()
+            self._warmup_has_ended = True
 
         # advance chains to next epoch
         self._position_chain.advance_epoch(self.current_epoch.config)
